@@ -128,6 +128,27 @@ pub fn iter_map<A, B, I: Iterator<Item = A>, F: Fn(A) -> B>(it: I, f: F) -> (r: 
         map_source::<A, _>(&r) == it.remaining(),
 { it.map(f) }
 
+/// R29: `std::fs::read_dir(p)`.  `ReadDir` is a foreign type, so vstd's iterator model cannot be attached to it (orphan rule): the stand-in
+/// `DirIter` wraps it.  Assumed: it is a finite well-behaved iterator over the listing `dir_listing(p)` (spec/vfs.rs).
+#[verifier::external_body]
+pub struct DirIter { inner: std::fs::ReadDir }
+impl Iterator for DirIter {
+    type Item = std::io::Result<std::fs::DirEntry>;
+    #[verifier::external_body]
+    fn next(&mut self) -> Option<std::io::Result<std::fs::DirEntry>> { self.inner.next() }
+}
+impl vstd::std_specs::iter::IteratorSpecImpl for DirIter {
+    open spec fn obeys_prophetic_iter_laws(&self) -> bool { true }
+    uninterp spec fn remaining(&self) -> Seq<Self::Item>;
+    uninterp spec fn will_return_none(&self) -> bool;
+    uninterp spec fn decrease(&self) -> Option<nat>;
+    uninterp spec fn peek(&self, index: int) -> Option<Self::Item>;
+}
+#[verifier::external_body]
+pub fn read_dir(p: &std::path::Path) -> (r: std::io::Result<DirIter>)
+    ensures r matches Ok(it) ==> it.obeys_prophetic_iter_laws() && it.decrease() is Some && it.remaining() == crate::vfs::dir_listing(p),
+{ Ok(DirIter { inner: std::fs::read_dir(p)? }) }
+
 /// R24: `(a..b).take_while(p).map(f)`.  Assumed (std contracts of Range<usize>, Iterator::take_while, Iterator::map): the result is a finite
 /// well-behaved iterator yielding f(a), f(a+1), .., f(k-1) where k is the first index in a..b that p rejects (k = b if there is none);
 /// p is only called on a..=k and f only on indices p accepted.  Closures are `Fn` (the repo's do not mutate their captures).
